@@ -957,7 +957,7 @@ class Bus(ContainerBase, StoreClientMixin): # not a ContainerOperand
             {skipna}
         '''
 
-        if id(other) == id(self):
+        if skipna and id(other) == id(self):
             return True
 
         if compare_class and self.__class__ != other.__class__:
